@@ -397,19 +397,47 @@ func (h *c09H) exec(line string) (res string, ibc string) {
 	case "lc_chanack":
 		chi, _ := strconv.Atoi(strings.TrimPrefix(f[1], "ch"))
 		chID := fmt.Sprintf("channel-%d", chi)
-		ack := channeltypes.NewMsgChannelOpenAck("transfer", chID, "channel-77", "ics20-1", []byte("proof"), clienttypes.NewHeight(1, 1), h.e.relayer.String())
-		ae, me := h.exec1(ack)
+		route := m["w"] // "" / top: MsgChannelOpenAck in the transaction; nested: inside authz.MsgExec; confirm: MsgChannelOpenConfirm
+		var msg sdk.Msg = channeltypes.NewMsgChannelOpenAck("transfer", chID, "channel-77", "ics20-1", []byte("proof"), clienttypes.NewHeight(1, 1), h.e.relayer.String())
+		ck := app.IBCKeeper.ChannelKeeper
+		before, exists := ck.GetChannel(ctx(), "transfer", chID)
+		switch route {
+		case "nested":
+			msg = h.msgExec(msg)
+		case "confirm":
+			// the rollapp started the handshake: the hub's channel end is in TRYOPEN (stand-in for an accepted MsgChannelOpenTry)
+			if exists && before.State == channeltypes.INIT {
+				try := before
+				try.State = channeltypes.TRYOPEN
+				try.Counterparty.ChannelId = "channel-77"
+				ck.SetChannel(ctx(), "transfer", chID, try)
+			}
+			msg = channeltypes.NewMsgChannelOpenConfirm("transfer", chID, []byte("proof"), clienttypes.NewHeight(1, 1), h.e.relayer.String())
+		}
+		ae, me := h.exec1(msg)
 		dbg(ae)
+		dbg(me)
+		if route == "confirm" && exists && before.State == channeltypes.INIT {
+			ck.SetChannel(ctx(), "transfer", chID, before)
+		}
 		if ae != nil {
 			if c := c09LcClass(ae); c != "" {
 				return "ante:" + c, ""
+			}
+			if route == "nested" || route == "confirm" {
+				return "ante:other", "" // the ante chain has nothing to say about these two routes
 			}
 			return "ante:chanUnknown", ""
 		}
 		if me == nil {
 			h.t.Fatal("a channel handshake with a bogus proof succeeded")
 		}
-		if m["ibc"] == "1" {
+		if (route == "nested" || route == "confirm") && exists && before.State == channeltypes.INIT && !c09IsProofFailure(me) &&
+			!strings.Contains(me.Error(), "client") {
+			// on a channel in INIT state over an active client the only thing between these two routes and an open channel is the proof
+			h.t.Fatalf("%s: the handshake message did not get as far as proof verification: %v", route, me)
+		}
+		if m["ibc"] == "1" && (exists || route == "" || route == "top") {
 			h.e.setChannelOpen(chID, "channel-77") // stands for the same message carrying a valid proof
 			return "ok", ""
 		}
@@ -443,6 +471,12 @@ func (h *c09H) exec(line string) (res string, ibc string) {
 	// everything else is an M-Core op
 	r := h.core.exec(line)
 	return r, ""
+}
+
+// c09IsProofFailure: ibc core refused the handshake step because the (bogus) proof does not verify — everything before
+// that (routing, authz dispatch, channel / connection / client lookups, state checks) went through
+func c09IsProofFailure(err error) bool {
+	return strings.Contains(err.Error(), "failed channel state verification")
 }
 
 // runWrapped sends `inner` by one of the four routes and classifies the outcome
@@ -621,6 +655,14 @@ func (h *c09H) snapshot() *c09Snap {
 	return s
 }
 
+func pairsOf(m map[int]int) string {
+	var xs []string
+	for _, k := range sortedKeys(m) {
+		xs = append(xs, fmt.Sprintf("r%d>ch%d", k, m[k]))
+	}
+	return "chof=" + strings.Join(xs, ",")
+}
+
 func lt3(a, b [3]uint64) bool {
 	for i := 0; i < 3; i++ {
 		if a[i] != b[i] {
@@ -711,6 +753,8 @@ type c09Mon struct {
 	// C06, third clause: headers accepted from a bonded sequencer for a height the hub had no descriptor for,
 	// kept until a descriptor for that height exists or the consensus state is gone: (client, height) -> signers
 	unv map[[2]uint64]map[int]bool
+	// channels opened by a message the light-client decorator does not look at (nested ack, confirm)
+	unseenOpen map[int]bool
 }
 
 func (m *c09Mon) violate(sig, detail string) {
@@ -924,8 +968,39 @@ func (m *c09Mon) channels(op string, prev, cur *c09Snap) {
 		for o, isOpen := range prev.Chans {
 			if isOpen && o != ch && o < len(m.h.chans) && m.h.chans[o].client == cur.R2C[r] {
 				if _, wasCanon := prev.R2C[r]; wasCanon {
-					m.violate("C09/first_channel_only/not-the-first-opened-channel", op)
+					if m.unseenOpen[o] {
+						// other root cause than the ante-write-kept findings: the earlier channel was opened by a message the decorator does not look at
+						m.violate("C09/first_channel_only/later-channel-canonical-after-unseen-open", op)
+					} else {
+						m.violate("C09/first_channel_only/not-the-first-opened-channel", op)
+					}
 				}
+			}
+		}
+	}
+	// the first transfer channel OPENED over the canonical client of a rollapp without canonical channel must become canonical
+	for o, isOpen := range cur.Chans {
+		if !isOpen || o < len(prev.Chans) && prev.Chans[o] || o >= len(m.h.chans) {
+			continue
+		}
+		for r, c := range prev.R2C {
+			if c != m.h.chans[o].client {
+				continue
+			}
+			if _, had := prev.ChOf[r]; had {
+				continue
+			}
+			earlier := false
+			for o2, was := range prev.Chans {
+				earlier = earlier || was && o2 < len(m.h.chans) && m.h.chans[o2].client == c
+			}
+			if got, ok := cur.ChOf[r]; !earlier && (!ok || got != o) {
+				if m.unseenOpen == nil {
+					m.unseenOpen = map[int]bool{}
+				}
+				m.unseenOpen[o] = true
+				m.violate("C09/first_channel_only/opened-channel-not-canonical",
+					fmt.Sprintf("r%d: channel %d is the first channel opened over canonical client c%d but is not the rollapp's canonical channel (%s) after %s", r, o, c, pairsOf(cur.ChOf), op))
 			}
 		}
 	}
@@ -1599,7 +1674,15 @@ func (c *c09Gen) next(cs *coreSnap, ls *c09Snap, inBlock *bool) string {
 		if g.Chance(4) {
 			ch = 50
 		}
-		return fmt.Sprintf("lc_chanack ch%d ibc=%d", ch, ibc)
+		w := "top"
+		switch k := g.Intn(100); {
+		case k < 14:
+			w = "nested"
+		case k < 24:
+			w = "confirm"
+		}
+		c.r.Hit("channel/route-" + w)
+		return fmt.Sprintf("lc_chanack ch%d w=%s ibc=%d", ch, w, ibc)
 	}
 	return c.updateLine(ri, ra, ls, false, false)
 }
@@ -1739,6 +1822,11 @@ func c09Directed() [][]string {
 		// mirrored order: the header first — the hook of the state update then finds the consensus state and refuses, the transaction is atomic
 		cat(ra0, []string{up(1, 3), honest, "lc_setcanon c0",
 			"tx lc_update c0 w=top h=5 root=99 ts=50 nv=1 ps=a0 pd=a0 rev=0 trusted=2 vals=a0:1:1 tvals=a0:1:1 ;; " + up(4, 2), up(4, 2)}),
+		// the first channel over the canonical client is opened by an ack inside authz.MsgExec / by MsgChannelOpenConfirm: it does not
+		// become canonical, the next channel acknowledged at top level does
+		cat(ra0, []string{up(1, 3), honest, "lc_setcanon c0", "lc_chaninit c0", "lc_chaninit c0", "lc_chanack ch0 w=nested ibc=1", "lc_chanack ch1 w=top ibc=1"}),
+		cat(ra0, []string{up(1, 3), honest, "lc_setcanon c0", "lc_chaninit c0", "lc_chaninit c0", "lc_chanack ch0 w=confirm ibc=1", "lc_chanack ch1 w=top ibc=1"}),
+		cat(ra0, []string{up(1, 3), honest, "lc_setcanon c0", "lc_chaninit c0", "lc_chanack ch0 w=nested ibc=0", "lc_chanack ch7 w=nested ibc=1", "lc_chanack ch7 w=confirm ibc=1", "lc_chanack ch0 w=confirm ibc=0", "lc_chanack ch0 w=top ibc=1"}),
 		// happy path: designation, honest optimistic header, agreeing state update, channel
 		cat(ra0, []string{up(1, 3), honest, "lc_setcanon c0",
 			"lc_update c0 w=top h=5 root=6 ts=50 nv=1 ps=a0 pd=a0 rev=0 trusted=2 vals=a0:1:1 tvals=a0:1:1", up(4, 3),
